@@ -60,7 +60,8 @@ class SimRaw(io.RawIOBase):
         return False
 
     def fileno(self):
-        return self._f.fileno()
+        # no descriptor is handed out: zero-copy shortcuts (shutil's sendfile path) would bypass the write events
+        raise io.UnsupportedOperation("fileno")
 
     def write(self, b):
         b = bytes(b)
@@ -288,7 +289,21 @@ def _rmdir(path, *, dir_fd=None):
     return _real["rmdir"](path, dir_fd=dir_fd)
 
 
+def _cross_device(src, dst):
+    """With the case's directory on a file system of its own, a rename across its boundary is refused (EXDEV)."""
+    if not simenv.get("own_filesystem"):
+        return
+    a, b = _fs_for(src), _fs_for(dst)
+    if (a is None) != (b is None):
+        import errno
+
+        (a or b)[0].sim.probe("rename_across_file_systems_refused")
+        raise OSError(errno.EXDEV, "Invalid cross-device link", os.fspath(src), None, os.fspath(dst))
+
+
 def _replace(src, dst, *, src_dir_fd=None, dst_dir_fd=None):
+    if src_dir_fd is None and dst_dir_fd is None:
+        _cross_device(src, dst)
     g = _fs_for(dst) if src_dir_fd is None and dst_dir_fd is None else None
     if g is not None:
         fs, p, rel = g
@@ -303,6 +318,8 @@ def _replace(src, dst, *, src_dir_fd=None, dst_dir_fd=None):
 
 
 def _rename(src, dst, *, src_dir_fd=None, dst_dir_fd=None):
+    if src_dir_fd is None and dst_dir_fd is None:
+        _cross_device(src, dst)
     g = _fs_for(dst) if src_dir_fd is None and dst_dir_fd is None else None
     if g is not None:
         fs, p, rel = g
